@@ -343,6 +343,11 @@ def _sum(interp, args, kwargs):
     if items is None:
         start = args[1] if len(args) > 1 else kwargs.get("start", 0)
         src = args[0]
+        if isinstance(src, (PointwiseSeq, GhostVal)) and CTX.ghost.get("sum") is not None:
+            # sum over a ghost sequence of ghost records: the harness supplies the abstract value
+            r = CTX.ghost["sum"](src, start)
+            if r is not None:
+                return r
         if isinstance(src, PointwiseSeq) and isinstance(start, VList) and start.is_concrete() and not start.items and CTX.mode == "sym":
             # sum([[..c items..] for ...], []) : flattening of fixed-size lists
             k = z3.Int(CTX.fresh_name("fk"))
